@@ -32,7 +32,8 @@ def must_see(tier):
     m = {'hostile-key-delivered-multilevel': 500,
          'hostile-value-delivered': 300,
          'both-raised-same': 500, 'shape-and-pickle-compared': 500,
-         'absolute:lookup-absent': 200, 'absolute:write-typeerror': 200}
+         'absolute:lookup-absent': 200, 'absolute:write-typeerror': 200,
+         'view-walks': 100, 'stale-separator-trees': 10}
     for lab in ('int', 'bool', 'float', 'str', 'bytes', 'none', 'tuple',
                 'plain', 'index', 'ordered'):
         m['hostile-class:' + lab] = 20
@@ -43,7 +44,7 @@ def plan(tier, seed):
     q = tier == 'quick'
     specs = []
     for fam in families.FAMILY_NAMES:
-        specs.append(dict(label=fam, family=fam, histories=7 if q else 70,
+        specs.append(dict(label=fam, family=fam, histories=24 if q else 150,
                           seed=seed, tier=tier, variant='mon',
                           timeout=900 if q else 3000))
     return specs
@@ -118,6 +119,60 @@ def diagnose(fam, kind, op, args, hostile, oc, op_, stage, extra=None):
     return None
 
 
+def view_walk(c, p, is_mapping, rng, rec, fail, present):
+    """keys()/values()/items() views: one view object per implementation,
+    indexed / sliced / measured in the same non-monotonic order."""
+    meth = rng.choice(['keys', 'values', 'items'] if is_mapping else ['keys'])
+    args = ()
+    r = rng.random()
+    try:
+        sp = sorted(k for k in present if k is not None)
+    except TypeError:
+        return True
+    if sp and r < 0.5:
+        a, b = rng.choice(sp), rng.choice(sp)
+        args = (a, b) if r < 0.25 else (a,)
+    try:
+        vc = getattr(c, meth)(*args)
+        vp = getattr(p, meth)(*args)
+    except Exception:
+        return True
+    n = len(present)
+    rec.ev('view-walks')
+    for _ in range(rng.randint(3, 10)):
+        rec.evaluations += 1
+        kind = rng.random()
+        if kind < 0.7:
+            i = rng.randint(-n - 1, n)
+            what = '%s(*%r)[%d]' % (meth, args, i)
+
+            def f(v, i=i):
+                return v[i]
+        elif kind < 0.9:
+            i, j = rng.randint(-n, n), rng.randint(-n, n)
+            what = '%s(*%r)[%d:%d]' % (meth, args, i, j)
+
+            def f(v, i=i, j=j):
+                return list(v[i:j])
+        else:
+            what = 'len(%s(*%r))' % (meth, args)
+
+            def f(v):
+                return len(v)
+        outs = []
+        for v in (vc, vp):
+            try:
+                outs.append(('ok', f(v)))
+            except Exception as e:
+                outs.append(('exc', type(e).__name__))
+        a, b = outs
+        if a[0] != b[0] or (a[0] == 'exc' and a[1] != b[1]) or (
+                a[0] == 'ok' and not eq(a[1], b[1])):
+            fail('lazy-views-differ', None, op=what, c=brief(a), py=brief(b))
+            return False
+    return True
+
+
 def _self_orderable(v):
     try:
         v < v
@@ -145,6 +200,7 @@ def run_history(fam, kind, rng, rec, h, pal):
         g.values = [v for v in g.values if f32(v) == v]
     log = []
     iand_seen = False
+    stale_mode = False
     n = rng.randint(40, 130)
     desc = dict(family=fam.name, kind=kind, sizes=sizes, impl='c-vs-py')
 
@@ -167,6 +223,27 @@ def run_history(fam, kind, rng, rec, h, pal):
                 w = walker.walk(c, is_mapping)
             except Exception:
                 w = None
+        # ---- one lazy view object walked in the same order on both ------
+        if is_tree and step % 9 == 8 and present:
+            if not view_walk(c, p, is_mapping, rng, rec, fail, present):
+                return
+            continue
+        # ---- both trees rebuilt with separators that are only lower bounds
+        if is_tree and step == n // 2 and h % 3 == 1 and len(present) > 2:
+            from .. import surgeon
+            try:
+                d0 = surgeon.describe(c, is_mapping)
+                d1, nch = surgeon.loosen_separators(d0, g.universe, rng)
+                if nch:
+                    c2 = surgeon.build(d1, fam, kind, 'c')
+                    p2 = surgeon.build(d1, fam, kind, 'py')
+                    c2._check()
+                    p2._check()
+                    c, p = c2, p2
+                    stale_mode = True
+                    rec.ev('stale-separator-trees')
+            except TypeError:
+                pass
         op, args = g.next_op(w, present)
         hostile = None
         if rng.random() < 0.27 and args:
@@ -308,7 +385,12 @@ def run_history(fam, kind, rng, rec, h, pal):
                  c=brief(gc_, 300), py=brief(gp, 300))
             return
         # ---- shape and serialized state every few calls ------------------
-        if step % 5 == 4 or step == n - 1:
+        # (after the rebuild with loosened separators only behaviour is
+        # compared: when an interior node splits, C hands the existing
+        # separator up while Python recomputes the subtree minimum - both are
+        # valid separators and differ only if a stale one existed, which the
+        # API alone never produces)
+        if (step % 5 == 4 or step == n - 1) and not stale_mode:
             rec.ev('shape-and-pickle-compared')
             if is_tree:
                 wc = walker.walk(c, is_mapping)
@@ -318,7 +400,10 @@ def run_history(fam, kind, rng, rec, h, pal):
                     tag = diagnose(fam, kind, op, ca, hostile, oc, opy,
                                    'shape', dict(iand_seen=iand_seen))
                     fail('shapes-differ', tag, c=brief(wc.shape, 200),
-                         py=brief(wp.shape, 200))
+                         py=brief(wp.shape, 200),
+                         c_seps=brief(wc.separators, 300),
+                         py_seps=brief(wp.separators, 300),
+                         leaves=brief(wc.leaf_keys, 300))
                     return
             try:
                 dc, dp = pickle.dumps(c, 3), pickle.dumps(p, 3)
